@@ -50,7 +50,7 @@ MAX_NODES = {"quick": 6, "thorough": 10}
 def cases(ctx):
     @st.composite
     def _cases(draw):
-        bp = draw(bpl.blueprints(max_nodes=MAX_NODES[ctx.tier], min_nodes=1, density=55))
+        bp = draw(bpl.blueprints(max_nodes=MAX_NODES[ctx.tier], min_nodes=1, density=55, own_param_outputs=True))
         return {
             "bp": bp,
             "edits": draw(st.lists(ed.edits(ed.CHANGING), min_size=1, max_size=2)),
